@@ -4,6 +4,8 @@ CONSTANTS
   Relays = {1}
   NoMc = {2}
   Types = {1, 65}
+  Lens = {1}
+  FragLen = 1
   MaxWrites = 2
   MaxLoss = 0
   Concurrent = FALSE
